@@ -910,7 +910,8 @@ func genProject(r *rand.Rand, id int, real bool) *Case {
 	if real {
 		c.Gen = "project-real-env-child"
 	}
-	keys := []string{"A", "B", "C", "PC_PROC_NAME", "PC_REPLICA_NUM", "E1", "E2"}
+	// AB / E1X / A_: names that have an env_cmds key (A, E1) as a proper prefix - a key ends at '=', not earlier
+	keys := []string{"A", "B", "C", "PC_PROC_NAME", "PC_REPLICA_NUM", "E1", "E2", "AB", "E1X", "A_"}
 	entry := func(layer string, n int) string {
 		k := keys[r.Intn(len(keys))]
 		if !real && layer != "i" {
